@@ -143,7 +143,7 @@ Proof.
     + destruct c1 as [c1|]; cbn in Hc1; [|contradiction].
       destruct c2 as [c2|]; cbn in Hc2; [|contradiction].
       cbn [merge_col]. rewrite Hc1, Hc2.
-      destruct (Z.ltb_spec (t1 + 0) (t2 + 0)); [|lia].
+      destruct (Z.ltb_spec (t2 + 0) (t1 + 0)); [lia|].
       unfold keep, hide. rewrite Hc2.
       destruct reset as [r|].
       * destruct (Z.ltb_spec (t2 + 0) r); [lia|]. rewrite adj_id by exact Hc2. reflexivity.
